@@ -288,6 +288,10 @@ def runLine (st : DState) (j : Json) : DState × Option Json :=
     | none => (st, none)
     | some v0 =>
       let v := if jS j "op" == "sclear" then clearView v0 else v0
+      -- the main session is written first; a value above the codecs' ceiling is not produced: Save fails, nothing is written
+      if !Codec.fits Oidc.Generated.cookieValueCeiling (lenFacts st.secure st.now) (payloadGob v.main) then
+        (st, some (Json.mkObj [("saveErr", Json.bool true)]))
+      else
       let jar' := ofTab (toTab 300 (saveApply v))
       let e : Env := { now := st.now, tok := tokInfo st.toks, verifyTok := fun _ => false, exchange := fun _ _ _ => .failed, refresh := fun _ => .error false,
                        rnd := fun _ => [], s256 := id, exec := fun _ _ => none, compress := compressWith st.toks, decompress := decompressS }
